@@ -69,7 +69,7 @@ def gen_case(rng):
     fmt = rng.choice(["%e", "%.6e", "%.12e", "%r"])
     natoms = rng.choice([0, 1, 3, 20, 300])
     return {"n": n, "origin": origin, "deltas": deltas, "values": values, "per_line": per_line, "fmt": fmt,
-            "natoms": natoms, "shape_cls": shape_cls}
+            "natoms": natoms, "shape_cls": shape_cls, "dtype": rng.choice(["double", "double", "float"])}
 
 
 def dx_text(c, rng):
@@ -80,7 +80,9 @@ def dx_text(c, rng):
     for d in c["deltas"]:
         lines.append("delta " + " ".join("%.6e" % v for v in d))
     lines.append(f"object 2 class gridconnections counts {n[0]} {n[1]} {n[2]}")
-    lines.append(f"object 3 class array type double rank 0 items {len(c['values'])} data follows")
+    # the declared element type is double in APBS output and float in maps written from float32 data; the values are
+    # text either way
+    lines.append(f"object 3 class array type {c.get('dtype', 'double')} rank 0 items {len(c['values'])} data follows")
     toks = [(c["fmt"] % v) if c["fmt"] != "%r" else repr(v) for v in c["values"]]
     for i in range(0, len(toks), c["per_line"]):
         lines.append(" ".join(toks[i:i + c["per_line"]]) + (" " if rng.random() < 0.3 else ""))
@@ -175,7 +177,7 @@ def run_case(spec):
             pqrs, atoms = pqr_text(c["natoms"], rng)
             entry = "cli" if k % 4 == 0 else "api"
             witness = {"shape": c["n"], "per_line": c["per_line"], "fmt": c["fmt"], "natoms": c["natoms"],
-                       "entry": entry, "seed": spec["seed"], "k": k}
+                       "entry": entry, "seed": spec["seed"], "k": k, "dtype": c["dtype"]}
             try:
                 cube = convert(dxs, pqrs, entry, wdir)
             except Exception as e:  # noqa: BLE001
